@@ -63,6 +63,27 @@ type scenario struct {
 	Force    forcing    `json:"force"`
 	Seed     int64      `json:"seed"`
 	ShutAtUs int        `json:"shut,omitempty"` // shutdown class: Shutdown() is called this long after the start
+	// module lifecycle scenarios (classes modstop, stoptmo; run in a child process with module management on):
+	// a director goroutine executes Life in order; the stop function of module k submits the tasks StopSubs[k]
+	// (on its first run); the submitters Subs are launched by the director's `sub` ops only.
+	Life     []lifeOp `json:"life,omitempty"`
+	StopSubs [][]int  `json:"stopsubs,omitempty"`
+}
+
+// lifeOp is one step of the director of a lifecycle scenario.
+//
+//	sub n      launch submitter goroutine Subs[n]
+//	waitrun n  wait until n microtask functions / signalled sections are executing (at most 5 s)
+//	settmo n   set the module stop timeout to n ms
+//	stop n     Disable module n and ManageModules(): the module is stopped while the others keep running
+//	start n    Enable module n and ManageModules()
+//	sleep n    n µs
+//	quiet      wait until everything submitted so far has finished and the scheduler settled, then record the
+//	           global and the per-module counts
+//	shutdown   modules.Shutdown()
+type lifeOp struct {
+	Op string `json:"op"`
+	N  int    `json:"n,omitempty"`
 }
 
 // ---------------------------------------------------------------------------------------------
@@ -74,6 +95,7 @@ type rawEv struct {
 	tid  int
 	a, b int64
 	ch   any
+	s    string
 }
 
 type recorder struct {
@@ -280,6 +302,19 @@ func (r *recorder) h(kind string, tid int, a int64) {
 	}
 }
 
+// hs logs a harness-side observation that carries a string (counter lists).
+func (r *recorder) hs(kind string, tid int, a int64, str string) {
+	g := gid()
+	held := r.holder.Load() == g
+	if !held && !r.hlock() {
+		return
+	}
+	r.add(rawEv{g: g, kind: "h:" + kind, tid: tid, a: a, s: str})
+	if !held {
+		r.mu.Unlock()
+	}
+}
+
 // ---------------------------------------------------------------------------------------------
 // running a scenario on the real code
 
@@ -292,6 +327,12 @@ var (
 
 type panicVal struct{ tid int }
 
+// lifeMode: this process runs one lifecycle scenario (child process only).
+var (
+	lifeMode   bool
+	stopFnHook atomic.Value // of func(module index)
+)
+
 func boot() error {
 	bootOnce.Do(func() {
 		modules.SetStdErrReporting(false)
@@ -299,8 +340,27 @@ func boot() error {
 		// warnings stay enabled (failed Start* tasks log one): the log writer then asks the scheduler for its
 		// write trigger, which exercises the scheduler's "other" select branch; the adapter discards the lines
 		log.SetLogLevel(log.WarningLevel)
-		for _, n := range modNames {
-			mods = append(mods, modules.Register(n, nil, nil, nil))
+		for k, n := range modNames {
+			if lifeMode {
+				// lifecycle scenarios: every module has a stop function (it submits the microtasks the scenario
+				// prescribes) and module management is on, so that single modules can be stopped and restarted
+				k := k
+				m := modules.Register(n, nil, nil, func() error {
+					if f, ok := stopFnHook.Load().(func(int)); ok && f != nil {
+						f(k)
+					}
+					return nil
+				})
+				mods = append(mods, m)
+			} else {
+				mods = append(mods, modules.Register(n, nil, nil, nil))
+			}
+		}
+		if lifeMode {
+			modules.EnableModuleManagement(nil)
+			for _, m := range mods {
+				m.Enable()
+			}
 		}
 		modules.VerifSetSink(rec.sink)
 		if err := modules.Start(); err != nil {
@@ -448,6 +508,7 @@ func runScenario(sc *scenario) *runResult {
 	var wg sync.WaitGroup    // submitters
 	var fnWg sync.WaitGroup  // functions of Start* tasks
 	var lastEnd atomic.Int64 // unix nanos of the last function end
+	var running atomic.Int64 // functions / signalled sections executing right now (the harness's own gauge)
 	taskErrs := make([]error, len(sc.Tasks))
 	for i := range taskErrs {
 		taskErrs[i] = fmt.Errorf("task %d failed", i)
@@ -458,8 +519,10 @@ func runScenario(sc *scenario) *runResult {
 				defer fnWg.Done()
 			}
 			rec.h("fnbegin", tid, us())
+			running.Add(1)
 			sleepUs(t.RunUs)
-			rec.h("fnend", tid, 0)
+			running.Add(-1)
+			rec.h("fnend", tid, us())
 			lastEnd.Store(time.Now().UnixNano())
 			switch t.Out {
 			case 1:
@@ -470,10 +533,8 @@ func runScenario(sc *scenario) *runResult {
 			return nil
 		}
 	}
-	for _, sub := range sc.Subs {
-		wg.Add(1)
-		go func(sub []int) {
-			defer wg.Done()
+	runSub := func(sub []int) {
+		{
 			for _, tid := range sub {
 				t := sc.Tasks[tid]
 				sleepUs(t.PreUs)
@@ -521,8 +582,10 @@ func runScenario(sc *scenario) *runResult {
 						continue
 					}
 					rec.h("fnbegin", tid, us())
+					running.Add(1)
 					sleepUs(t.RunUs)
-					rec.h("fnend", tid, 0)
+					running.Add(-1)
+					rec.h("fnend", tid, us())
 					lastEnd.Store(time.Now().UnixNano())
 					n := t.Dones
 					if n < 1 {
@@ -556,7 +619,100 @@ func runScenario(sc *scenario) *runResult {
 					}
 				}
 			}
-		}(sub)
+		}
+	}
+	launch := func(sub []int) {
+		wg.Add(1)
+		go func() {
+			defer wg.Done()
+			runSub(sub)
+		}()
+	}
+	dirDone := make(chan struct{})
+	if len(sc.Life) == 0 {
+		for _, sub := range sc.Subs {
+			launch(sub)
+		}
+		close(dirDone)
+	} else {
+		// lifecycle scenario: the director stops and restarts single modules while microtasks are in flight
+		var launched atomic.Int64 // non-nil tasks handed to a submitter / a stop function so far
+		nonNil := func(sub []int) (n int64) {
+			for _, tid := range sub {
+				if sc.Tasks[tid].Mod >= 0 {
+					n++
+				}
+			}
+			return
+		}
+		var stopMu sync.Mutex
+		used := make([]bool, len(mods))
+		stopFnHook.Store(func(k int) {
+			stopMu.Lock()
+			first := !used[k]
+			used[k] = true
+			stopMu.Unlock()
+			if first && k < len(sc.StopSubs) && len(sc.StopSubs[k]) > 0 {
+				wg.Add(1)
+				defer wg.Done()
+				launched.Add(nonNil(sc.StopSubs[k]))
+				runSub(sc.StopSubs[k]) // the stop function is the submitter
+			}
+		})
+		go func() {
+			defer close(dirDone)
+			for _, op := range sc.Life {
+				switch op.Op {
+				case "sub":
+					if op.N >= 0 && op.N < len(sc.Subs) {
+						launched.Add(nonNil(sc.Subs[op.N]))
+						launch(sc.Subs[op.N])
+					}
+				case "waitrun":
+					for end := time.Now().Add(5 * time.Second); running.Load() < int64(op.N) && time.Now().Before(end); {
+						time.Sleep(100 * time.Microsecond)
+					}
+				case "settmo":
+					modules.VerifSetStopTimeout(time.Duration(op.N) * time.Millisecond)
+					rec.h("settmo", -1, int64(op.N))
+				case "stop":
+					rec.h("modstop-call", op.N, us())
+					mods[op.N%len(mods)].Disable()
+					_ = modules.ManageModules()
+					rec.h("modstop-ret", op.N, us())
+				case "start":
+					rec.h("modstart-call", op.N, us())
+					mods[op.N%len(mods)].Enable()
+					_ = modules.ManageModules()
+					rec.h("modstart-ret", op.N, us())
+				case "sleep":
+					sleepUs(op.N)
+				case "quiet":
+					wg.Wait()
+					fnWg.Wait()
+					settle := "ok"
+					if err := waitParked(15*time.Second, int(launched.Load())); err != nil {
+						settle = strings.ReplaceAll(err.Error(), " ", "_")
+					}
+					c, _ := modules.VerifMicroTasks()
+					var ms []string
+					for _, m := range mods {
+						ms = append(ms, strconv.Itoa(int(m.VerifMicroTaskCnt())))
+					}
+					rec.hs("quiet", -1, int64(c), strings.Join(ms, ",")+" settle="+settle)
+				case "shutdown":
+					rec.h("shutdown-call", -1, 0)
+					_ = modules.Shutdown()
+					rec.h("shutdown-ret", -1, 0)
+					res.shutMs = 0
+					if le := lastEnd.Load(); le > 0 {
+						if d := time.Since(time.Unix(0, le)); d > 0 {
+							res.shutMs = d.Milliseconds()
+						}
+					}
+				}
+			}
+		}()
 	}
 	var shutDone chan struct{}
 	if sc.Class == "shutdown" {
@@ -577,15 +733,20 @@ func runScenario(sc *scenario) *runResult {
 	}
 	allDone := make(chan struct{})
 	go func() {
+		<-dirDone
 		wg.Wait()
 		fnWg.Wait()
 		close(allDone)
 	}()
+	hangAfter := 20 * time.Second
+	if len(sc.Life) > 0 {
+		hangAfter = 60 * time.Second // stops that wait out a timeout of some seconds are reported, not cut off
+	}
 	select {
 	case <-allDone:
 		res.settle = waitParked(15*time.Second, wantToks)
 		res.parkedMs = parkedNoToken.Milliseconds()
-	case <-time.After(20 * time.Second):
+	case <-time.After(hangAfter):
 		// some call never returned (e.g. nothing is admitted any more): report, the process state is lost
 		res.hang = true
 		res.settle = errors.New("hang")
@@ -706,7 +867,11 @@ func canon(sc *scenario, res *runResult) []string {
 	for i, e := range evs {
 		if strings.HasPrefix(e.kind, "h:") {
 			k := e.kind[2:]
-			lines = append(lines, fmt.Sprintf("h %s %d %d", k, e.tid, e.a))
+			if e.s != "" {
+				lines = append(lines, fmt.Sprintf("h %s %d %d %s", k, e.tid, e.a, e.s))
+			} else {
+				lines = append(lines, fmt.Sprintf("h %s %d %d", k, e.tid, e.a))
+			}
 			t := taskSpec{}
 			if e.tid >= 0 && e.tid < len(sc.Tasks) {
 				t = sc.Tasks[e.tid]
@@ -882,6 +1047,7 @@ const (
 	sigStop     = "C15:shutdown-held-up-after-all-finished"
 	sigCrash    = "C15:start-variant-on-nil-module-crashes-the-process"
 	sigHang     = "C15:submitted-microtasks-never-returned"
+	sigModStop  = "C15:module-stop-held-up-after-all-finished"
 )
 
 func effDelay(t taskSpec) time.Duration {
@@ -921,6 +1087,11 @@ func monitor(c hxlib.Case, outs []string) []hxlib.Violation {
 	running := map[int]bool{} // medium/low tasks inside their function / signalled section
 	highActive := map[int]bool{}
 	callAt := make([]int64, n)
+	called := make([]bool, n)
+	endAt := make([]int64, n)
+	ended := make([]bool, n)
+	stopCallAt := map[int]int64{}
+	stopTmoMs := int64(0) // the module stop timeout in force (0: the default of one minute, never waited out here)
 	shutdownBegun := false
 	maxML := 0
 	zeroSignalCalled := false // has a medium/low Signal*MicroTask(0) call been made so far?
@@ -983,6 +1154,63 @@ func monitor(c hxlib.Case, outs []string) []hxlib.Violation {
 			shutdownBegun = true
 			continue
 		}
+		switch f[1] {
+		case "settmo":
+			stopTmoMs = a
+			continue
+		case "quiet":
+			// everything submitted so far has finished: "the global and per-module running counts are zero again"
+			if a != 0 {
+				add(sigCount, fmt.Sprintf("all microtasks submitted so far have finished (mid-scenario quiescence), yet the global count is %d", a))
+			}
+			if len(f) > 4 {
+				for i, s := range strings.Split(f[4], ",") {
+					if s != "0" {
+						add(sigMod, fmt.Sprintf("all microtasks submitted so far have finished (mid-scenario quiescence), yet module %d has a microtask count of %s", i, s))
+					}
+				}
+			}
+			for _, kv := range f[4:] {
+				if strings.HasPrefix(kv, "settle=") && kv != "settle=ok" {
+					add(sigSettle, "counter/queues/scheduler did not settle within 15s (mid-scenario quiescence): "+kv[7:])
+				}
+			}
+			continue
+		case "modstop-call":
+			stopCallAt[tid] = a
+			continue
+		case "modstop-ret":
+			// "module stops are not held up": a stop that lasted as long as the stop timeout has waited the timeout
+			// out; that is only justified while a microtask of the module (or the stop function submitting one) is
+			// still busy. Judged only if every microtask of the module called so far ended at least
+			// max(timeout/2, 1 s) before the timeout expired (tolerance in the implementation's favour).
+			c0, ok := stopCallAt[tid]
+			if !ok || stopTmoMs <= 0 || a-c0 < stopTmoMs*1000 {
+				continue
+			}
+			margin := stopTmoMs * 1000 / 2
+			if margin < 1000000 {
+				margin = 1000000
+			}
+			busy, last := false, int64(-1)
+			for i, t := range sc.Tasks {
+				if t.Mod < 0 || t.Mod%3 != tid || !called[i] {
+					continue
+				}
+				if !ended[i] {
+					busy = true
+				} else if endAt[i] > last {
+					last = endAt[i]
+				}
+			}
+			if !busy && last+margin <= c0+stopTmoMs*1000 {
+				add(sigModStop, fmt.Sprintf("stop of module %d took %d ms = the whole stop timeout (%d ms) although every microtask of the module had finished %d ms before the timeout expired (last one ended %d µs after the scenario began, the stop was called at %d µs)",
+					tid, (a-c0)/1000, stopTmoMs, (c0+stopTmoMs*1000-last)/1000, last, c0))
+			}
+			continue
+		case "modstart-call", "modstart-ret":
+			continue
+		}
 		if tid < 0 || tid >= n {
 			continue
 		}
@@ -990,6 +1218,7 @@ func monitor(c hxlib.Case, outs []string) []hxlib.Violation {
 		switch f[1] {
 		case "call":
 			callAt[tid] = a
+			called[tid] = true
 			if t.Var == 2 && t.Prio != 2 && t.DelayMs == 0 {
 				zeroSignalCalled = true
 			}
@@ -1021,6 +1250,7 @@ func monitor(c hxlib.Case, outs []string) []hxlib.Violation {
 			}
 		case "fnend":
 			delete(running, tid)
+			endAt[tid], ended[tid] = a, true
 			if t.Prio == 2 && t.Var != 0 {
 				delete(highActive, tid) // Start*/Signal* high: nothing later tells us; the function end does
 			}
@@ -1191,7 +1421,154 @@ func floodScenario(r *hxlib.Run, prio int) *scenario {
 	return sc
 }
 
+// lifeScenario builds a module lifecycle scenario (run in a child process with module management on).
+//
+// modstop: the limit is used up by long-running microtasks of other modules (max delay: never), no shutdown, no
+// high-priority task; then medium/low microtasks are submitted on a module that is *stopping* (by its stop
+// function, or from outside while the stop is in progress) or that is *stopped and not restarted*. A module
+// stop is not the shutdown: the limit holds for these microtasks like for any other.
+//
+// stoptmo: a short module stop timeout and a microtask of the module (any priority and variant, running before
+// the stop or started by the stop function) that outlives it: the stop takes its timeout branch, the microtask
+// finishes later (optionally after the module was restarted already). Then everything has finished — all
+// counts must be exactly zero — and a further stop of the idle module must not be held up.
+func lifeScenario(r *hxlib.Run, class string) *scenario {
+	rng := r.Rng
+	sc := &scenario{Class: class, Seed: rng.Int63(), Force: forcing{Prob: map[string]int{}, MaxUs: 200}, StopSubs: make([][]int, 3)}
+	if rng.Intn(3) == 0 {
+		for _, p := range []string{"sched-granted", "conclude", "concluded", "pre-inc", "sched-loop"} {
+			sc.Force.Prob[p] = rng.Intn(40)
+		}
+	}
+	addTask := func(t taskSpec) int { sc.Tasks = append(sc.Tasks, t); return len(sc.Tasks) - 1 }
+	addSub := func(tids ...int) int { sc.Subs = append(sc.Subs, tids); return len(sc.Subs) - 1 }
+	op := func(o string, n int) { sc.Life = append(sc.Life, lifeOp{o, n}) }
+	task := func(prio, mod, runUs int) taskSpec { // max delay: never
+		t := taskSpec{Prio: prio, Var: rng.Intn(3), Mod: mod, RunUs: runUs, DelayMs: -1}
+		if t.Var != 2 {
+			t.Out = []int{0, 0, 1, 2}[rng.Intn(4)]
+		} else {
+			t.Dones = 1 + rng.Intn(3)
+			if t.Conc = rng.Intn(3) == 0; t.Conc {
+				t.Dones = 2 + rng.Intn(3)
+			}
+		}
+		return t
+	}
+	switch class {
+	case "modstop":
+		sc.Lim = 2 + rng.Intn(3)
+		b := 1 + rng.Intn(2) // the module that is stopped
+		hold := 40000 + rng.Intn(40000)
+		op("settmo", 5000)
+		variant := rng.Intn(3)
+		if variant == 1 { // stopped and not restarted: its stop flag stays set
+			op("stop", b)
+		}
+		for i := 0; i < sc.Lim; i++ { // use the limit up
+			other := []int{0, 3 - b}[rng.Intn(2)]
+			op("sub", addSub(addTask(task(rng.Intn(2), other, hold+rng.Intn(10000)))))
+		}
+		op("waitrun", sc.Lim)
+		mk := func() int {
+			t := task(rng.Intn(2), b, 500+rng.Intn(3000))
+			return addTask(t)
+		}
+		n := 1 + rng.Intn(3)
+		switch variant {
+		case 0: // submitted by the stop function of the stopping module
+			for i := 0; i < n; i++ {
+				sc.StopSubs[b] = append(sc.StopSubs[b], mk())
+			}
+			op("stop", b)
+		case 1: // submitted from outside to the stopped module
+			for i := 0; i < n; i++ {
+				op("sub", addSub(mk()))
+			}
+		case 2: // both, the outside submitters race with the stop
+			for i := 0; i < n; i++ {
+				sc.StopSubs[b] = append(sc.StopSubs[b], mk())
+			}
+			for i := 1 + rng.Intn(2); i > 0; i-- {
+				op("sub", addSub(mk()))
+			}
+			op("stop", b)
+		}
+		op("quiet", 0)
+		op("start", b)
+		var sub []int
+		for i := 2 + rng.Intn(4); i > 0; i-- { // ordinary traffic after the restart
+			sub = append(sub, addTask(task(rng.Intn(2), rng.Intn(3), rng.Intn(800))))
+		}
+		op("sub", addSub(sub...))
+		op("quiet", 0)
+	case "stoptmo":
+		sc.Lim = 2 + rng.Intn(5)
+		b := rng.Intn(3)
+		tmo := 50 + rng.Intn(50)
+		op("settmo", tmo)
+		over := func() int { return (tmo + 40 + rng.Intn(80)) * 1000 } // outlives the stop timeout
+		n := 1 + rng.Intn(2)
+		how := rng.Intn(3)
+		if how != 1 { // running before the stop begins
+			for i := 0; i < n; i++ {
+				op("sub", addSub(addTask(task(rng.Intn(3), b, over()))))
+			}
+			op("waitrun", n)
+		}
+		if how != 0 { // started by the stop function (a Run*/Signal* variant keeps the stop function itself busy)
+			for i := 0; i < n; i++ {
+				sc.StopSubs[b] = append(sc.StopSubs[b], addTask(task(rng.Intn(3), b, over()/n)))
+			}
+		}
+		var by []int
+		for i := rng.Intn(4); i > 0; i-- { // bystanders on the other modules
+			by = append(by, addTask(task(rng.Intn(3), (b+1+rng.Intn(2))%3, rng.Intn(2000))))
+		}
+		if len(by) > 0 {
+			op("sub", addSub(by...))
+		}
+		op("stop", b) // takes the timeout branch
+		early := rng.Intn(2) == 0
+		if early { // restarted while microtasks of the previous run are still in flight
+			op("start", b)
+			var more []int
+			for i := rng.Intn(3); i > 0; i-- {
+				more = append(more, addTask(task(rng.Intn(3), b, rng.Intn(1500))))
+			}
+			if len(more) > 0 {
+				op("sub", addSub(more...))
+			}
+		}
+		op("quiet", 0) // everything has finished: all counts are zero again
+		op("settmo", 3000)
+		if !early {
+			op("start", b)
+		}
+		op("stop", b) // nothing is running: must not be held up
+		op("start", b)
+		var again []int
+		for i := 1 + rng.Intn(3); i > 0; i-- {
+			again = append(again, addTask(task(rng.Intn(3), b, rng.Intn(1500))))
+		}
+		op("sub", addSub(again...))
+		op("quiet", 0)
+		if rng.Intn(3) == 0 {
+			op("shutdown", 0)
+		}
+	}
+	return sc
+}
+
 func count(r *hxlib.Run, sc *scenario, lines []string) {
+	for _, o := range sc.Life {
+		r.Count("life:" + o.Op)
+	}
+	for _, ss := range sc.StopSubs {
+		if len(ss) > 0 {
+			r.Count("life:stop-function-submits")
+		}
+	}
 	r.Count("class:" + sc.Class)
 	r.Count(fmt.Sprintf("limit:%d", sc.Lim))
 	switch n := len(sc.Tasks); {
@@ -1304,6 +1681,7 @@ func childMain() {
 		fmt.Println("child: bad scenario:", err)
 		os.Exit(3)
 	}
+	lifeMode = len(sc.Life) > 0
 	if err := boot(); err != nil {
 		fmt.Println("child: boot:", err)
 		os.Exit(3)
@@ -1318,6 +1696,7 @@ func childMain() {
 }
 
 var extra = map[string]any{}
+var dumpN int
 var extraMu sync.Mutex
 
 func gen(r *hxlib.Run, emit func(hxlib.Case)) {
@@ -1342,7 +1721,7 @@ func gen(r *hxlib.Run, emit func(hxlib.Case)) {
 			return
 		}
 		var lines []string
-		if sc.Class == "shutdown" || sc.Class == "nilstart" {
+		if sc.Class == "shutdown" || sc.Class == "nilstart" || len(sc.Life) > 0 {
 			var err error
 			lines, err = runInChild(sc)
 			if err != nil {
@@ -1360,6 +1739,10 @@ func gen(r *hxlib.Run, emit func(hxlib.Case)) {
 					stop = true
 				}
 			}
+		}
+		if d := os.Getenv("HX_C15_DUMP"); d != "" { // debugging aid: every trace as a file
+			dumpN++
+			_ = os.WriteFile(fmt.Sprintf("%s/%04d-%s.txt", d, dumpN, sc.Class), []byte(strings.Join(lines, "\n")+"\n"), 0o644)
 		}
 		count(r, sc, lines)
 		grants := 0
@@ -1387,6 +1770,13 @@ func gen(r *hxlib.Run, emit func(hxlib.Case)) {
 		emitScn(floodScenario(r, 1))
 		return
 	}
+	if os.Getenv("HX_C15_ONLY") == "life" { // debugging aid
+		for i := 0; i < 12; i++ {
+			emitScn(lifeScenario(r, "modstop"))
+			emitScn(lifeScenario(r, "stoptmo"))
+		}
+		return
+	}
 	// regression scenarios first
 	emitScn(&scenario{Class: "default", Lim: 2, Seed: 1, Force: forcing{Prob: map[string]int{}, MaxUs: 100},
 		Tasks: []taskSpec{{Prio: 0, Var: 2, Mod: 0, RunUs: 3000, Dones: 1}, {Prio: 0, Var: 2, Mod: 0, RunUs: 3000, Dones: 2},
@@ -1398,6 +1788,8 @@ func gen(r *hxlib.Run, emit func(hxlib.Case)) {
 	floods := r.Budget(2, 6)
 	shutdowns := r.Budget(40, 250)
 	nilstarts := r.Budget(8, 40)
+	modstops := r.Budget(14, 80)
+	stoptmos := r.Budget(14, 80)
 	for i := 0; i < nScn && time.Now().Before(deadline) && !stop; i++ {
 		class := "noexpiry"
 		switch x := r.Rng.Intn(100); {
@@ -1410,6 +1802,14 @@ func gen(r *hxlib.Run, emit func(hxlib.Case)) {
 		if i%60 == 3 && nilstarts > 0 {
 			nilstarts--
 			emitScn(genScenario(r, "nilstart"))
+		}
+		if i%100 == 11 && modstops > 0 {
+			modstops--
+			emitScn(lifeScenario(r, "modstop"))
+		}
+		if i%100 == 61 && stoptmos > 0 {
+			stoptmos--
+			emitScn(lifeScenario(r, "stoptmo"))
 		}
 		if i%40 == 7 && shutdowns > 0 {
 			shutdowns--
